@@ -141,3 +141,7 @@ extend("C09", "partial_iter driven by iterators without exact size hint", "In ev
 extend("C11", "uncompiled flat form of base and replacements", "Bases that contain a literal are also explored as parse_wo_compile expressions with uncompiled replacements.")
 extend("C18", "piecewise expressions below two stacked unary operators", "A slice of the relaxed-mode family sits below two stacked unary operators (a deep level that consists of one nested level).")
 extend("C20", "index-aligned 18-operator levels read by two factories; violations carry the failing schedule", "Two texts with 18 binary operators on one level have the same operator-index sequence under the two factories (other names, other priorities); every violation of a schedule body records the choice prefix under which it was first seen, and verif replay re-runs it.")
+extend("C07", "large-count family (surplus of parentheses / operands / operators around 127, 255, 511 and multiples of 256)", "Malformed texts whose parenthesis, operand or operator surplus is a multiple of 256 away from a well-formed count, and damage behind the 255th token, for three languages.")
+extend("C14", "structured orders also at 254..258 (thorough 2..260, 510..514) operands", "The structured application orders run at the chain lengths around 256 (thorough: 512) as well, with as many distinct priorities as operators.")
+extend("C15", "257 (thorough 255..258, 300) distinct variables", "Many-variable texts pass the byte boundary of the variable index.")
+extend("C09", "out-of-range aliases modulo 256 and 2^16", "The out-of-range index catalogue contains 255..257, 65535, 65536 and the aliases 256 + i, 65536 + i of the valid indices.")
